@@ -326,7 +326,8 @@ Proof.
       rewrite Hx0. cbn [map app peek0]. rewrite Hhv.
       change (hex_char d :: map hex_char ds ++ r) with (map hex_char (d :: ds) ++ r).
       rewrite take_hex_digits by assumption. cbv beta iota zeta.
-      rewrite sat_value by first [lia | apply hex_nonneg; assumption]. f_equal. unfold lit_value. cbn [map]. lia.
+      rewrite sat_value by first [lia | apply hex_nonneg; assumption].
+      rewrite wrap_sign_lt by (unfold numeral_cap; lia). f_equal. unfold lit_value. cbn [map]. lia.
     + (* 0x.. *)
       unfold get_int. unfold c_0, c_x, c_o, c_MINUS, c_DOLLAR. cbn [eq_char prefixb].
       replace (48 =? 45) with false by reflexivity. replace (48 =? 48) with true by reflexivity.
@@ -339,7 +340,8 @@ Proof.
       cbn [andb]. cbv beta iota zeta. cbn [skipn map app peek0]. rewrite Hhv.
       change (hex_char d :: map hex_char ds ++ r) with (map hex_char (d :: ds) ++ r).
       rewrite take_hex_digits by assumption. cbv beta iota zeta.
-      rewrite sat_value by first [lia | apply hex_nonneg; assumption]. f_equal. unfold lit_value. cbn [map]. lia.
+      rewrite sat_value by first [lia | apply hex_nonneg; assumption].
+      rewrite wrap_sign_lt by (unfold numeral_cap; lia). f_equal. unfold lit_value. cbn [map]. lia.
   - (* octal *)
     destruct ds as [|d ds]; [discriminate|]. clear Hne. cbn [lit_text lit_value app].
     assert (Hd8 : forallb (in_range 0 8) (d :: ds) = true).
